@@ -147,11 +147,11 @@ def Box.facingMid (dir : Dir) (b : Box) : Pt :=
 
 def ptCloseB (tol : Rat) (a b : Pt) : Bool := decide (ratAbs (a.1 - b.1) ≤ tol) && decide (ratAbs (a.2 - b.2) ≤ tol)
 
-/-- link of one datum: starts at its dot on the axis, ends within `tol` of the middle of the axis-facing edge of its box -/
-def linkEndsB (dir : Dir) (tol : Rat) (dot : Rat) (steps : List Step) (b : Box) : Bool :=
+/-- link of one datum: starts (within the print precision `tolStart`) at its dot on the axis, ends within `tol` of the middle of the axis-facing edge of its box -/
+def linkEndsB (dir : Dir) (tolStart tol : Rat) (dot : Rat) (steps : List Step) (b : Box) : Bool :=
   match steps with
   | Step.M p :: rest =>
-    (p == (if dir.horizontalAxis then (dot, 0) else (0, dot))) &&
+    ptCloseB tolStart p (if dir.horizontalAxis then (dot, 0) else (0, dot)) &&
       (match rest.getLast? with
        | some s => ptCloseB tol s.endPt (b.facingMid dir)
        | none => false)
